@@ -114,7 +114,7 @@ func Execute(t *testing.T, w *World, spec RunSpec) *Obs {
 	}
 
 	body := func(s *Sched) {
-		cl := &SimClient{s: s, lc: w.localClient()}
+		cl := &SimClient{s: s, lc: w.localClient(), order: w.VersionsOrder}
 		vm := &SimMatcher{s: s, w: w, osv: w.osv()}
 		var err error
 		switch spec.Kind {
